@@ -14,6 +14,12 @@
 (*   pos   get_position of every row token idx  get_index of every token   *)
 (*   nxt / prv  get_next / get_prev of every row token (0 = None)          *)
 (*   first / last                                                           *)
+(*   txt   small integer naming the actual raw_text of every row token      *)
+(* Document-level drivers add op "assign": token r was given a new value or *)
+(* raw text through the model API; newtxt names the raw text it must have   *)
+(* afterwards.  For an assign the frame condition of C02 is checked: the    *)
+(* row is unchanged and every OTHER token has the text it had at the        *)
+(* previous observation.                                                    *)
 (* The spec computes the expected sequence itself from (op, r, e, toks);   *)
 (* the logged row is compared, never trusted.                               *)
 (* Verdicts are total: every trace ends in one PrintT'd VERDICT tuple.     *)
@@ -22,8 +28,8 @@ EXTENDS TokenSeq, TLC, Json, IOUtils
 
 Traces == JsonDeserialize(IOEnv.TRACE_FILE)
 
-VARIABLES tid, l, verdict, why
-tvars == <<seq, tsize, tid, l, verdict, why>>
+VARIABLES tid, l, verdict, why, ptxt
+tvars == <<seq, tsize, tid, l, verdict, why, ptxt>>
 
 Ev == Traces[tid].events[l]
 Done == l > Len(Traces[tid].events)
@@ -39,6 +45,9 @@ ObsClause(ev, s) ==
     ELSE IF \E i \in 1..Len(s) : ev.idx[i] # Ordinal(i) THEN "index"
     ELSE IF \E i \in 1..Len(s) : ev.nxt[i] # NextOf(s, i) \/ ev.prv[i] # PrevOf(s, i) THEN "nextprev"
     ELSE IF \E i \in 1..Len(s) : <<ev.pos[i][1], ev.pos[i][2]>> # PosOf(szs, i) THEN "position"
+    ELSE IF ev.op = "assign" /\ Len(ptxt) = Len(s) /\
+            (\E i \in 1..Len(s) : s[i] # ev.r /\ ev.txt[i] # ptxt[i]) THEN "other-token-text"
+    ELSE IF ev.op = "assign" /\ (\E i \in 1..Len(s) : s[i] = ev.r /\ ev.txt[i] # ev.newtxt) THEN "assigned-text"
     ELSE "ok"
 
 \* The token right after the replaced range: whether re-inserting it is refused is not
@@ -64,6 +73,10 @@ Step ==
     /\ LET ev == Ev  x == Expected(ev)
            clause == IF ~x.dom THEN "ok"                          \* call outside the store's contract: not judged
                      ELSE IF x.refuse /\ ev.exc = "" THEN "not-refused"
+                     ELSE IF ev.op = "assign" /\ ev.exc # "" THEN     \* value outside the type's domain: a refusal,
+                          (IF ev.row # seq THEN "row"                   \* which must be a stutter (C19)
+                           ELSE IF Len(ptxt) = Len(seq) /\ ev.txt # ptxt THEN "refused-assign-changed-text"
+                           ELSE "ok")
                      ELSE IF ~x.refuse /\ ev.exc # "" THEN "raised-" \o ev.exc
                      ELSE IF ~NoDuplicates(x.s) THEN "ok"          \* duplicate insertion: outside the contract
                      ELSE ObsClause(ev, x.s)
@@ -71,18 +84,19 @@ Step ==
           /\ verdict' = IF clause = "ok" THEN "run" ELSE "rejected"
           /\ why' = IF clause = "ok" THEN why ELSE clause
           /\ l' = l + 1
+          /\ ptxt' = ev.txt
           /\ UNCHANGED <<tid, tsize>>
 
 Finish ==
     /\ verdict = "run" /\ Done
     /\ verdict' = "accepted"
-    /\ UNCHANGED <<seq, tsize, tid, l, why>>
+    /\ UNCHANGED <<seq, tsize, tid, l, why, ptxt>>
 
 TInit ==
     /\ tid \in 1..Len(Traces)
     /\ seq = Traces[tid].init.ids
     /\ tsize = <<>>
-    /\ l = 1 /\ verdict = "run" /\ why = ""
+    /\ l = 1 /\ verdict = "run" /\ why = "" /\ ptxt = <<>>
 
 TNext == Step \/ Finish
 
